@@ -1218,6 +1218,8 @@ def key_sig(I, k):
     if isinstance(k, Agg):
         if k.kind == 'String':
             return conc_bytes(I, str_of_string(k))
+        if k.kind in ('PathBuf', 'OsString') and len(k.fields) == 1:
+            return key_sig(I, k.fields[0])      # Borrow<Path> for PathBuf: a map keyed by PathBuf is probed with &Path
         parts = []
         for f in k.fields:
             sg = key_sig(I, f)
@@ -1740,6 +1742,46 @@ def m_int_from(I, args, callee):
     raise Unsupported(callee)
 
 
+def m_refcell_new(I, args, callee):
+    return Agg('RefCell', [args[0]])
+
+
+def m_refcell_borrow(I, args, callee):
+    """RefCell::borrow / borrow_mut / try_borrow*: a guard holding a reference to the value (single-threaded paths; the
+    dynamic borrow flag is not modelled: a double mutable borrow would panic natively and is outside the models)"""
+    r = args[0]
+    if not isinstance(r, Ref):
+        raise Unsupported('RefCell::borrow of a non-reference')
+    return Agg('BorrowGuard', [Ref(r.cell, tuple(r.path) + (('f', 0),))])
+
+
+def m_guard_deref(I, args, callee):
+    g = I.deref(args[0]) if isinstance(args[0], Ref) else args[0]
+    return g.fields[0]
+
+
+def m_localkey_new(I, args, callee):
+    a = args[0]
+    return Opaque('LocalKey', (a.name if isinstance(a, FnRef) else str(a),))
+
+
+def m_localkey_with(I, args, callee):
+    """LocalKey::with: one modelled thread per path; the value is created by the key's init fn at first use"""
+    key = I.deref(args[0]) if isinstance(args[0], Ref) else args[0]
+    if not isinstance(key, Opaque) or key.tag != 'LocalKey':
+        raise Unsupported('LocalKey::with on %r' % (key,))
+    base = re.sub(r'::\{constant#\d+\}.*$', '', key.parts[0])
+    cell = I.tls.get(base)
+    if cell is None:
+        last = base.split('::')[-1]
+        init = [f for n, f in I.by_name.items() if n.endswith(last + '::__rust_std_internal_init_fn')]
+        if len(init) != 1:
+            raise Unsupported('thread_local initialiser of %s' % base)
+        cell = Cell(I.call_fn(init[0], []))
+        I.tls[base] = cell
+    return I.call_closure(args[1], [Ref(cell, ())])
+
+
 def m_int_try_from(I, args, callee):
     """<T as TryFrom<U>>::try_from / <U as TryInto<T>>::try_into for primitive integers: Ok(value) iff it fits"""
     a = args[0]
@@ -2131,6 +2173,11 @@ MODELS = [
     (r'^VecDeque::<.*>::pop_front$', m_pop_front),
     # Rc / Box / paths
     (r'^Rc::<.*>::new$', m_rc_new),
+    (r'^(std::cell::)?RefCell::<.*>::new$', m_refcell_new),
+    (r'^(std::cell::)?RefCell::<.*>::(borrow|borrow_mut)$', m_refcell_borrow),
+    (r'^<(std::cell::)?(Ref|RefMut)<.*> as (Deref|DerefMut)>::(deref|deref_mut)$', m_guard_deref),
+    (r'^(std::thread::)?LocalKey::<.*>::new$', m_localkey_new),
+    (r'^(std::thread::)?LocalKey::<.*>::with::<', m_localkey_with),
     (r'^<Rc<.*> as Deref>::deref$', m_rc_deref),
     (r'^<Rc<.*> as Clone>::clone$', m_rc_clone),
     (r'^Box::<.*>::new$', m_box_new),
